@@ -1,4 +1,5 @@
-# Per-property configuration of the runtime monitors (read by vcheck).
+# Per-property configuration of the runtime monitors (read by vcheck and gen_manifest.py).
+# One file per property in checks/CNN.py, each defining CHECK = {...} with the keys
 #
 #   harness            monitor program under harness/
 #   srcs               /repo sources (globs) compiled, instrumented, into the monitor
@@ -7,42 +8,26 @@
 #                      firing means inconclusive, never a violation), optional extra args
 #   required_*         observations without which the run is inconclusive (exit 2)
 #   rule               how cases are generated and what makes one non-trivial (goes to evidence)
+#   level_text / level_note / technique / assumptions     texts for MANIFEST.json and evidence
+#   claimed            False while a monitor is still being calibrated (not in MANIFEST.checks)
+import glob
+import importlib.util
+import os
+import sys
 
-GEODESY = ["src/geodesy/*.cpp"]
+_HERE = os.path.dirname(os.path.abspath(__file__))
+sys.path.insert(0, _HERE)
 
 # commits in /repo that add guarded hooks (ROMEA_CORE_COMMON_VERIF)
 HOOK_COMMITS = ["3f1b53b"]
 
-# properties deliberately not claimed, with the reason (empty: every property is observable at the API)
+# properties deliberately not claimed, with the reason
 NOT_APPLICABLE = {}
 
-ASAN_NOTE = ("trusted base: g++ 12.2 ASan/UBSan runtime, the long-double oracles in the harness, the PRNG-driven "
-             "generators; says nothing about inputs the generators never produce")
-
-CHECKS = {
-    "C01": {
-        "harness": "c01_ecef.cpp",
-        "srcs": GEODESY,
-        "flavours": ["asan"],
-        "quick": {"shards": 4, "timeout": 600},
-        "thorough": {"shards": 16, "timeout": 3600},
-        "required_categories": ["generic", "antimeridian_near", "meridian_exact", "ecef_first",
-                                "ellipsoid_sphere", "ellipsoid_random", "ellipsoid_Clarke1880IGN"],
-        "required_oracles": ["forward.vs_definition_m", "roundtrip.lon_rad", "ecef_first.roundtrip_m"],
-        "required_counters": ["loop_hook_calls"],
-        "rule": "case = (ellipsoid, lat, lon, h) drawn from categories {generic, latitude bands at +-89.9/0/45 deg, "
-                "exact meridians 0/+-90/+-180 deg and their nextafter neighbours, log-spaced offsets 1e-15..1e-3 rad "
-                "from the antimeridian and prime meridian, ECEF-first points with zero/denormal/tiny Y}, heights incl. "
-                "-11 km and 100 km, ellipsoids GRS80/Clarke/International/sphere/random(a within 0.1%, f in [0,1/290]); "
-                "non-trivial = not (GRS80 and |lon|<3 rad and |lat|<60 deg), i.e. outside what the unit tests sample",
-        "level_text": "exploration: the real converter is executed on 3e5 (quick) / 5e7 (thorough) generated "
-                      "(ellipsoid, lat, lon, h) cases concentrated on the meridians, the antimeridian neighbourhood, the latitude "
-                      "limits and the height limits; each result is compared with the long-double definition and round-tripped; "
-                      "ASan+UBSan and the library's asserts watch the same executions, an iteration hook watches the latitude loop",
-        "level_note": ASAN_NOTE,
-        "technique": "runtime monitoring: sanitizer build + long-double reference oracle + round-trip monitors over generated inputs",
-        "assumptions": ["long double (x87 80-bit) closed form of the foot point + h*normal is the reference for the forward map",
-                        "longitudes compared modulo 2*pi (+pi and -pi denote the same meridian)",
-                        "g++ 12 ASan+UBSan runtime; asserts live (no -DNDEBUG)"],
-    },
-}
+CHECKS = {}
+for _p in sorted(glob.glob(os.path.join(_HERE, "checks", "C*.py"))):
+    _name = os.path.basename(_p)[:-3]
+    _spec = importlib.util.spec_from_file_location("checks_" + _name, _p)
+    _mod = importlib.util.module_from_spec(_spec)
+    _spec.loader.exec_module(_mod)
+    CHECKS[_name] = _mod.CHECK
